@@ -23,6 +23,8 @@ import (
 // connection must be reported and no goroutine of ws / ship may be left
 // blocked.
 func c12ShipPair(x *Ctx) {
+	// the same scenario serves C13 (loss reported, pumps and socket released) with its own clause names
+	c13 := x.Spec.Prop == "C13"
 	x.SigAdd("engine=ship-pair")
 	x.Net.Latency = func(*simnet.Conn) time.Duration { return time.Millisecond }
 	s := newShip2(x, ship2Opts{})
@@ -88,6 +90,26 @@ func c12ShipPair(x *Ctx) {
 			if strings.Contains(b, "ws/") || strings.Contains(b, "ship/") {
 				stuck = append(stuck, b)
 			}
+		}
+		if c13 {
+			nc, _, closes := 0, 0, 0
+			_, _, closes = s.A.nc.Counts()
+			_ = nc
+			if closedA == 0 {
+				x.Violate("loss-not-reported", "ship-pair", fmt.Sprintf("datagrams=%d, peer close=%s after %v: the stalled transport write failed after 10 s but the SHIP layer was never told; blocked: %v", nData, peerClose, closeDelay, stuck))
+				return
+			}
+			if closes == 0 {
+				x.Violate("socket-not-closed", "ship-pair", fmt.Sprintf("datagrams=%d, peer close=%s after %v: Close() was never called on A's network connection; blocked: %v", nData, peerClose, closeDelay, stuck))
+				return
+			}
+			if len(stuck) > 0 {
+				x.Violate("pump-not-terminated", "ship-pair", fmt.Sprintf("datagrams=%d, peer close=%s after %v: %v", nData, peerClose, closeDelay, stuck))
+				return
+			}
+			x.Probe("ship-pair-stalled-and-ended")
+			x.S.Stop("done")
+			return
 		}
 		if ended < begun {
 			x.Violate("write-never-returns", "ship-pair", fmt.Sprintf("datagrams=%d, peer close=%s after %v: 150 simulated s after the transport stalled, %d of %d WriteShipMessageWithPayload calls have not returned; blocked: %v", nData, peerClose, closeDelay, begun-ended, begun, stuck))
